@@ -59,6 +59,8 @@ PROPS = {
               "Consensus.indexed_blocks_cheaters_partial - every block carries the Atropos of the rules and the cheater list computed by the instance's own index at the decision = exactly the validators with a fork among the Atropos' ancestors, canonical order (C03/C06; an emitted Atropos is always an indexed event). "
               "GONE in these corollaries: hobs (oracle = graph forkless cause: Consensus.observe_eq_FC from C05_fc_eq_spec for the instance's own history + emb_fcspec + FC_eq_FCSpec; Orderer.process only asks about the processed event and owners of table roots: Compose.process_congr), "
               "hvals/ValsOK (Consensus.valsOK_of_build from C12), hbound/FrameBound (Consensus.frameBound_of_checks from C13), and 'cheater lists not proved'. "
+              "Several epochs, combined model: Consensus.indexed_multi_epoch_partial - two instances over their own indexes (index reset to the new validators at a seal, as IndexedLachesis does), fed epoch by epoch with all events of the epoch in their own parents-first orders and the same application seal function, "
+              "emit literally the same list of blocks (epoch, frame, Atropos, cheaters, sealed) and end in the same epoch / validators / last decided frame; no oracle hypothesis, no ValsOK, no FrameBound, no hseal; remaining per epoch: Valid, FramesAccepted, BFT, the two covering parents-first orders, WeightsOK, BuiltFor, Checked, nVals+events < 2^32 (Consensus.EpochHyps). "
               "Hypotheses that remain there: the property's own (Valid history, claimed frames obey the frame rule, forkers < 1/3, parents-first orders), the application never seals (one epoch), nVals + number of events < 2^32 (C05: 32-bit branch ids), validators named by canonical index with non-zero 32-bit weights and the record built by Model.Pos.build (WeightsOK/BuiltFor), every event passed eventcheck with its claimed frame and parent list (Checked). C01_multi_epoch_partial is not composed (per-epoch hypotheses unchanged).",
               props=["LachesisVerif.Props.C01", "LachesisVerif.Props.Consensus"], level="proof"),
     "C02": _p("Proof (partial): the explicit-stack DFS of confirmEvents, started on an ancestor-closed confirmed set, delivers exactly the Atropos' "
